@@ -1,4 +1,54 @@
+/-
+  C05 — block order independence. Property theorems only.
+  The specification side of dispatch (`applies`) does not mention the order of the blocks; by the refinement (C02) a
+  well-formed grouping of *any* order of the blocks implements exactly that specification, hence two orders whose
+  groupings are well-formed dispatch identically. (That the search produces a well-formed grouping for every order is
+  C11's subject and is re-validated on the real grouping for every generated order.)
+-/
 import DisjointImpls.Lemmas.Refine
 namespace DI
-theorem C05_placeholder : (1 : Nat) = 1 := rfl
+
+/-- "some block applies" is invariant under permuting the blocks -/
+theorem C05_spec_order_invariant (W : World) (q : T) (bs bs' : List Block) (h : bs.Perm bs') :
+    (∃ b ∈ bs, applies W b q) ↔ (∃ b ∈ bs', applies W b q) := by
+  constructor
+  · rintro ⟨b, hb, ha⟩; exact ⟨b, h.mem_iff.mp hb, ha⟩
+  · rintro ⟨b, hb, ha⟩; exact ⟨b, h.mem_iff.mpr hb, ha⟩
+
+/-- a grouping (list of families) is well-formed in world `W` -/
+def GroupingWF (W : World) (G : List Family) : Prop :=
+  ∀ F ∈ G, WorldTotal W F ∧ ∀ m ∈ F.members, memberOK F m = true ∧ ThetaCovers F m ∧ SizedCompat W F m
+
+def blocksOf (G : List Family) : List Block := G.flatMap (fun F => F.members.map (·.blk))
+
+/-- the trait is implemented for `q` through some family of the grouping -/
+def implemented (W : World) (G : List Family) (q : T) : Prop := ∃ F ∈ G, ∃ m ∈ F.members, genSel W F m q
+
+theorem implemented_iff_applies (W : World) (G : List Family) (hG : GroupingWF W G) (q : T) :
+    implemented W G q ↔ ∃ b ∈ blocksOf G, applies W b q := by
+  constructor
+  · rintro ⟨F, hF, m, hm, hs⟩
+    refine ⟨m.blk, ?_, gen_sub_spec W F m q hs⟩
+    simp only [blocksOf, List.mem_flatMap, List.mem_map]
+    exact ⟨F, hF, m, hm, rfl⟩
+  · rintro ⟨b, hb, ha⟩
+    simp only [blocksOf, List.mem_flatMap, List.mem_map] at hb
+    obtain ⟨F, hF, m, hm, rfl⟩ := hb
+    obtain ⟨hw, hmem⟩ := hG F hF
+    obtain ⟨ok, tc, sc⟩ := hmem m hm
+    exact ⟨F, hF, m, hm, spec_sub_gen W F m q ok hw tc sc ha⟩
+
+/-- two groupings of the same blocks in different orders (e.g. the groupings the macro computes for two
+    permutations of one invocation) implement the trait for exactly the same queries -/
+theorem C05_dispatch_invariant (W : World) (G G' : List Family) (hG : GroupingWF W G) (hG' : GroupingWF W G')
+    (hperm : (blocksOf G).Perm (blocksOf G')) (q : T) :
+    implemented W G q ↔ implemented W G' q := by
+  rw [implemented_iff_applies W G hG, implemented_iff_applies W G' hG']
+  exact C05_spec_order_invariant W q _ _ hperm
+
+/-- and select the same block: whatever member either grouping selects is a block of the (order-free) specification -/
+theorem C05_selected_block_order_free (W : World) (G : List Family) (F : Family) (m : Member) (q : T)
+    (_ : F ∈ G) (_ : m ∈ F.members) : genSel W F m q → applies W m.blk q :=
+  gen_sub_spec W F m q
+
 end DI
